@@ -1,8 +1,10 @@
 (** Judge for C05: re-rooting, unrooting, reordering never change the tree itself.
     case:  ((op reroot|unroot|rotate|sort) (tree T) (i n) (cs (n ...)))
-    obs :  ((err msg) (tree T') (audit (...)))                                         *)
+           ((op outgroup) (tree T) (names ("a" ...)) (remove T|F) (strict T|F))
+           ((op midpoint) (tree T))
+    obs :  ((err msg) (tree T') (audit (...)))   |   ((err msg))   |   ((panic msg))   *)
 From Coq Require Import String ZArith QArith Bool Arith List.
-From GT Require Import Base.Sexp Base.UTree Base.Codec Spec.Obs Model.Reroot Model.Rand Judge.Common.
+From GT Require Import Base.Sexp Base.UTree Base.Codec Spec.Obs Model.Reroot Model.Rand Model.Outgroup Judge.Common.
 Import ListNotations.
 Local Close Scope Q_scope.
 Local Open Scope string_scope.
@@ -40,8 +42,209 @@ Definition judge_basic (op : string) (c o : sexp) : verdict :=
   | _, _ => VBad "undecodable case or observation"
   end.
 
+
+(** * rooting on an outgroup / at the midpoint *)
+
+(** ** oracle, written from the property text on the specification's observables only *)
+
+(** every branch carries a length (the property quantifies over trees with branch lengths) *)
+Definition all_lengths (t : utree) : bool :=
+  forallb (fun s => negb (qeqb (slen s) nilv)) (branch_splits [] t).
+
+(** non-empty node names are pairwise distinct (a name designates at most one node) *)
+Definition distinct_names (t : utree) : bool :=
+  negb (has_dup (filter (fun s => negb (String.eqb s "")) (map uname (nodes t)))).
+
+(** the requested names that are tips of the tree, as a sorted set *)
+Definition present (t : utree) (names : list string) : list string :=
+  sset (filter (fun x => smem x (leaves t)) names).
+
+(** [P] is one side of a split of [t] (some branch separates exactly [P] from the rest) *)
+Definition is_side (t : utree) (P : list string) : bool :=
+  let all := tipset t in
+  negb (sset_eqb P []) && negb (sset_eqb P all) &&
+  existsb (fun s => sset_eqb (sside s) (canon_side all P)) (branch_splits all t).
+
+(** supports of untouched branches: every internal split of [t] other than the one cut by the
+    new root keeps its support *)
+Definition root_key (g : utree) : option (list string) :=
+  match kids g with
+  | [(_, c1); _] => Some (canon_side (tipset g) (sset (leaves c1)))
+  | _ => None
+  end.
+Definition supports_kept (t g : utree) : bool :=
+  let n := length (tipset t) in
+  let ug := usplits g in
+  forallb (fun s =>
+             if negb (nontrivial_split n s) then true
+             else if match root_key g with Some k => sset_eqb k (sside s) | None => false end then true
+             else match find_split (sside s) ug with
+                  | Some s' => qeqb (ssup s) (ssup s')
+                  | None => false
+                  end) (usplits t).
+
+(** [keep]-filtered sub-matrix *)
+Fixpoint filter_by {A} (keep : list bool) (l : list A) : list A :=
+  match keep, l with
+  | b :: k, x :: r => if b then x :: filter_by k r else filter_by k r
+  | _, _ => []
+  end.
+
+(** the outgroup was removed: tips = old tips minus the outgroup, path lengths among the rest unchanged *)
+Definition removed_obs (t g : utree) (P : list string) : option string :=
+  if negb (wf g) then Some "result is not a well-formed rooted structure"
+  else if negb (sset_eqb (ssort (sdiff (leaves t) P)) (ssort (leaves g)))
+       then Some "the tips of the result are not the old tips minus the outgroup"
+  else
+    let keep := map (fun x => negb (smem x P)) (ssort (leaves t)) in
+    let sub := filter_by keep (map (filter_by keep) (dist_matrix len0 t)) in
+    if negb (matrix_eqb sub (dist_matrix len0 g))
+    then Some "a path length between two remaining tips changed" else None.
+
+Definition oracle_outgroup_ok (remove strict : bool) (t g : utree) (names : list string) : option string :=
+  let P := present t names in
+  let side := is_side t P in
+  if negb side && strict && negb (sset_eqb P []) && negb (sset_eqb P (tipset t))
+  then Some "a non-monophyletic outgroup was accepted in strict mode"
+  else if remove then removed_obs t g P
+  else match same_tree_obs t g with
+       | Some m => Some m
+       | None =>
+         if negb (supports_kept t g) then Some "the support of an untouched branch changed" else
+         match kids g with
+         | [(e1, c1); (e2, c2)] =>
+           let l1 := sset (leaves c1) in
+           let l2 := sset (leaves c2) in
+           if side then
+             if negb (sset_eqb l1 P || sset_eqb l2 P)
+             then Some "the outgroup is not one of the two clades below the new root"
+             else if negb (all_lengths t) then None
+             else
+               (* the separating branch: the branch of [t] with this bipartition (the two root
+                  branches counting as one); when a node with a single child makes several
+                  branches define the same bipartition, any one of them *)
+               let key := canon_side (tipset t) P in
+               let cands := (match find_split key (usplits t) with Some s => [slen s] | None => [] end
+                             ++ match kids t with
+                                | [(r1, c1'); (r2, _)] =>
+                                  if sset_eqb (canon_side (tipset t) (sset (leaves c1'))) key
+                                  then [merge_len (elen r1) (elen r2)] else []
+                                | _ => []
+                                end
+                             ++ map slen (filter (fun s => sset_eqb (sside s) key) (branch_splits (tipset t) t)))%list in
+               if qeqb (elen e1) (elen e2) && existsb (fun l => qeqb (elen e1) (l * (1 # 2))%Q) cands
+               then None
+               else Some "the separating branch was not cut into two equal halves"
+           else if sset_eqb P [] || sset_eqb P (tipset t) then None
+           else if ssubset P l1 || ssubset P l2 then None
+                else Some "the non-monophyletic outgroup is not inside one root clade"
+         | _ => Some "the new root does not have exactly two children"
+         end
+       end.
+
+(** a refusal is questioned only where the text promises an outcome: a non-monophyletic
+    outgroup in non-strict mode "ends up inside one root clade" *)
+Definition oracle_outgroup_refused (remove strict : bool) (t : utree) (names : list string) : option string :=
+  let P := present t names in
+  if negb strict && negb remove && negb (is_side t P) && negb (sset_eqb P []) &&
+     negb (sset_eqb P (tipset t)) && distinct_names t && all_lengths t
+  then Some "a non-monophyletic outgroup was refused in non-strict mode"
+  else None.
+
+Definition qmax_list (l : list Q) : Q := fold_right (fun x acc => if Qle_bool acc x then x else acc) 0%Q l.
+Definition depth_of (ds : list (string * Q)) (a : string) : option Q :=
+  match find (fun p => String.eqb (fst p) a) ds with Some p => Some (snd p) | None => None end.
+
+Definition oracle_midpoint_ok (t g : utree) : option string :=
+  match same_tree_obs t g with
+  | Some m => Some m
+  | None =>
+    if negb (supports_kept t g) then Some "the support of an untouched branch changed" else
+    match kids g with
+    | [_; _] =>
+      if negb (all_lengths t) then None else
+      let pd := pairdists len0 t in
+      let D := qmax_list (map snd pd) in
+      let ds := depths len0 g in
+      if existsb (fun x => qeqb (snd x) D &&
+                           oq_eqb (depth_of ds (fst (fst x))) (Some (D * (1 # 2))%Q) &&
+                           oq_eqb (depth_of ds (snd (fst x))) (Some (D * (1 # 2))%Q)) pd
+      then None
+      else Some "the root is not halfway along a longest tip-to-tip path"
+    | _ => Some "the new root does not have exactly two children"
+    end
+  end.
+
+Fixpoint has_prefix (p s : string) : bool :=
+  match p, s with
+  | EmptyString, _ => true
+  | String a p', String b s' => Ascii.eqb a b && has_prefix p' s'
+  | _, _ => false
+  end.
+
+Definition judge_root (op : string) (c o : sexp) : verdict :=
+  match get_tree "tree" c with
+  | None => VBad "undecodable case"
+  | Some t =>
+    let setup : option (res utree * (utree -> option string) * option string * string) :=
+        (* model result, oracle on success, oracle on refusal, tag *)
+        if String.eqb op "outgroup" then
+          names <- get_strings "names" c ;;
+          remove <- get_bool "remove" c ;;
+          strict <- get_bool "strict" c ;;
+          let P := present t names in
+          let tag := (if is_side t P then "outgroup:side" else
+                      if sset_eqb P [] then "outgroup:none" else
+                      if sset_eqb P (tipset t) then "outgroup:all" else "outgroup:nonmono")
+                     ++ (if remove then "-rm" else "") ++ (if strict then "-strict" else "") in
+          Some (reroot_outgroup remove strict t names,
+                fun g => oracle_outgroup_ok remove strict t g names,
+                oracle_outgroup_refused remove strict t names, tag)
+        else if String.eqb op "midpoint" then
+          Some (reroot_midpoint t, oracle_midpoint_ok t, None, "midpoint")
+        else None in
+    match setup with
+    | None => VBad "bad case"
+    | Some (model, oracle_ok, oracle_refused, tag) =>
+      match get_string "panic" o with
+      | Some m =>
+        if has_prefix "build: " m || has_prefix "reinit: " m then VBad m
+        else VOracle ("panic: " ++ m)
+      | None =>
+        match get_string "err" o with
+        | None => VBad "undecodable observation"
+        | Some gerr =>
+          match model with
+          | Err m =>
+            if String.eqb gerr "" then VCorr ("model refuses (" ++ m ++ "), implementation succeeds")
+            else match oracle_refused with
+                 | Some m' => VOracle m'
+                 | None => VOk false (tag ++ ":err")
+                 end
+          | Ok t' =>
+            if negb (String.eqb gerr "") then VCorr ("implementation refuses: " ++ gerr ++ "; model: " ++ show_utree t')
+            else match get_tree "tree" o with
+                 | None => VBad "no tree in observation"
+                 | Some g =>
+                   match audit_ok o with
+                   | Some m => VOracle m
+                   | None =>
+                     if negb (utree_eqb t' g) then VCorr ("model: " ++ show_utree t')
+                     else match oracle_ok g with
+                          | Some m => VOracle m
+                          | None => VOk true tag
+                          end
+                   end
+                 end
+          end
+        end
+      end
+    end
+  end.
+
 Definition judge (c o : sexp) : verdict :=
   match get_string "op" c with
-  | Some op => judge_basic op c o
+  | Some op => if String.eqb op "outgroup" || String.eqb op "midpoint" then judge_root op c o
+               else judge_basic op c o
   | None => VBad "no op"
   end.
